@@ -904,19 +904,27 @@ example : ((fragPow 64 ((2 ^ 64 - 1) / 64) 30 [3] 100).ops.length) = 8 := by dec
 
 -- ============================================================== round 5: sqrt, gcd, gcd_ext on C12's mirrored kernels
 
-/-- round 5 (`Model/Mem/Arith4.lean`): `UBig::sqrt()` (root_only: `from_buffer` on the raw 2n-word work buffer, whose high half
+/-- round 5 (`Model/Mem/Arith4.lean`): `!IBig` / `!&IBig` (add_one / sub_one in the operand's buffer or in a copy), `UBig::sqrt()` (root_only: `from_buffer` on the raw 2n-word work buffer, whose high half
     is what C12's mirrored `root::sqrt_rem` leaves there), `Gcd::gcd` of `UBig` and `IBig` (both operands copied; the copy
-    that holds the result is selected by the `swapped` flag of the mirrored Lehmer loop) and `ExtendedGcd::gcd_ext` of `UBig`
+    that holds the result is selected by the `swapped` flag of the mirrored Lehmer loop) and `ExtendedGcd::gcd_ext` of `UBig`, of `IBig` and of the mixed
+    `UBig`/`IBig` operand pairs (`fragMixedGcd`: sign glue, the coefficients are multiplied by the operand signs)
     (by-value large operands become the work buffers; gcd in the smaller operand's buffer, `|b|` in the larger one's, `|a|`
     copied out of the scratch block) in all ownership forms are histories over the proved alphabet, for all operands — so
     `arithmetic_histories_keep_invariant` covers any interleaving of them with every other operation, whatever the
     kernels write -/
-theorem skeleton_ops_ok_round5 (W mx sq : Nat) (f : Form) (a b : List Nat) :
+theorem skeleton_ops_ok_round5 (W mx sq : Nat) (f : Form) (byVal na : Bool) (a b : List Nat) :
+    (∀ op ∈ ((fragNot W byVal na a).ops ++ (fragNot W byVal na a).cleanup).map AOp.toOp, op.Ok mx) ∧
     (∀ op ∈ ((fragSqrt W sq a).ops ++ (fragSqrt W sq a).cleanup).map AOp.toOp, op.Ok mx) ∧
     (∀ op ∈ ((fragGcd W f a b).ops ++ (fragGcd W f a b).cleanup).map AOp.toOp, op.Ok mx) ∧
     (∀ op ∈ ((fragSignedGcd W f a b).ops ++ (fragSignedGcd W f a b).cleanup).map AOp.toOp, op.Ok mx) ∧
-    (∀ op ∈ ((fragGcdExt W f a b).ops ++ (fragGcdExt W f a b).cleanup).map AOp.toOp, op.Ok mx) :=
-  ⟨AOp.map_ok mx _, AOp.map_ok mx _, AOp.map_ok mx _, AOp.map_ok mx _⟩
+    (∀ op ∈ ((fragGcdExt W f a b).ops ++ (fragGcdExt W f a b).cleanup).map AOp.toOp, op.Ok mx) ∧
+    (∀ (ext aI bI nb : Bool), ∀ op ∈ ((fragMixedGcd W ext f aI na a bI nb b).ops ++
+        (fragMixedGcd W ext f aI na a bI nb b).cleanup).map AOp.toOp, op.Ok mx) :=
+  ⟨AOp.map_ok mx _, AOp.map_ok mx _, AOp.map_ok mx _, AOp.map_ok mx _, AOp.map_ok mx _, fun _ _ _ _ => AOp.map_ok mx _⟩
+
+-- `!(2^128 - 1) = -(2^128)` by value on an inline value: the carry leaves the inline form (a 3-word buffer is allocated)
+example : (fragNot 64 true false [2 ^ 64 - 1, 2 ^ 64 - 1]).ops =
+    [.intoSignTyped 0, .allocate 2 3, .push 2 0, .push 2 0, .push 2 1, .fromBuffer 2, .withSign 2 true] := by decide +kernel
 
 /-- the flag-tracking Lehmer loop of the gcd skeleton has, as its value, C12's mirrored `lehmerGcdLoop` — for every fuel,
     operands and initial flag (the flag is the only thing C17 adds to C12's kernel) -/
@@ -996,5 +1004,37 @@ theorem scratch_formulas_regenerated (t n la lb : Nat) :
   · unfold gcdExtScratchWords Dashu.Gen.Scratch.gcd_ext_large_scratch_words Dashu.Gen.Scratch.gcd_memory_requirement_ext_exact Dashu.Gen.Scratch.lehmer_memory_requirement_ext_up_to
       Dashu.Gen.Scratch.mul_memory_requirement_exact
     simp only [hdiv, hmul la (la / 2), hmul (la + lb) lb]
+
+/-- memory.rs:58 `self.start.wrapping_add(self.layout.size())` never wraps: in the dangling arm (`size = 0`) the end is the
+    start (= the alignment, `< 2^U`); in the `alloc` arm the `GlobalAlloc` contract — the returned block
+    `[start, start + size)` lies inside the address space (hypothesis `hs`, the one fact taken from the allocator) — gives
+    `start + size < 2^U`.  So the `Memory` chunk handed to the bump allocator is exactly `[start, start + size)`, the block
+    the `bump_*` theorems speak about. -/
+theorem memory_end_does_not_wrap {U : Nat} {l : Lay.Layout} (h : l.Valid U) (start : Nat)
+    (hs : match Lay.memoryAllocationNew U l with
+          | .dangling a => start = a
+          | .alloc size _ => start + size < 2 ^ U
+          | .tooMuch => False) :
+    Lay.memoryOf U start l = ⟨start, start + l.size⟩ := by
+  obtain ⟨_, hz, hnz⟩ := Lay.memoryAllocationNew_contract h
+  unfold Lay.memoryOf
+  by_cases h0 : l.size = 0
+  · rw [(hz h0).1] at hs
+    simp only at hs
+    subst hs
+    have : l.align < 2 ^ U := by
+      unfold Lay.Layout.align
+      exact Nat.pow_lt_pow_right (by decide) h.1
+    rw [h0, Nat.add_zero, Nat.mod_eq_of_lt this]
+  · rw [(hnz h0).1] at hs
+    simp only at hs
+    rw [Nat.mod_eq_of_lt hs]
+
+example := memory_end_does_not_wrap (U := 64) (l := ⟨328, 3⟩)
+  (by unfold Lay.Layout.Valid Lay.maxSizeForAlign Lay.isizeMax; decide) 0x7f0000001000
+  (by show (match Lay.memoryAllocationNew 64 ⟨328, 3⟩ with
+            | .dangling a => 0x7f0000001000 = a | .alloc size _ => 0x7f0000001000 + size < 2 ^ 64 | .tooMuch => False)
+      rw [show Lay.memoryAllocationNew 64 ⟨328, 3⟩ = .alloc 328 8 from by decide +kernel]; decide)
+example : Lay.memoryOf 64 (2 ^ 64 - 8) ⟨328, 3⟩ = ⟨2 ^ 64 - 8, 320⟩ := by decide +kernel   -- what the hypothesis excludes
 
 end Dashu.Props.C17
